@@ -537,3 +537,14 @@ PROPS.update({
                 level_text="Coq theorems at operation granularity: a poll answers None iff no owner exists, only the drop of the last owner ends the stream (not into_shared, downgrade, dropping some clones / subscribers / weak references), it stays ended with get/read returning the last value, upgrade succeeds iff an owner exists; at lock granularity (once the micro-step proofs are in): with the repaired Drop the state is closed iff no owner is left at every quiescent point of every schedule, and the original Drop is refuted by a 4-step schedule. Tied to the crate by the C01 histories and by forced schedules of two and three concurrent droppers / upgraders at the pause point between the 'am I last?' decision and the release.",
                 level_note="Trusted: as C02. Finding F1 (concurrent last drops never close; drop racing with upgrade closes under a live owner) was reproduced deterministically through the pause points and repaired in 8ebfecc."),
 })
+
+
+PROPS["C04"] = dict(
+    streams=conc_streams({"setchain", "nopanic"}, with_lin=True), hook=True, trusted=CONC_TRUST + [
+        "the Wing-Gong linearizability search (ocaml/m_lin.ml) over the recorded, atomically stamped history"],
+    assumptions=["std::sync::RwLock provides reader/writer exclusion; Arc counters are atomic; sequentially consistent steps"],
+    strength="partial: the lock protocol is proved (linearization points, exclusion); the lock implementation, memory ordering and real schedules are trusted / sampled",
+    level_text="Coq theorems on the micro-step model: every micro-step of a value operation (poll, set, get, clone) is either its single linearization point, where the abstract state moves by exactly the sequential step of that operation with the same result and wakes, or leaves the abstract state unchanged; each operation passes its point exactly once; reader/writer exclusion holds in every reachable micro-state of every schedule. Tied to the crate by forced schedules over the pause points (exhaustive for two-thread configurations) and by free-running rounds whose stamped histories are checked for linearizability against the extracted sequential model, with set-chain, guard-exclusion and final-value checks.",
+    level_note="PARTIAL. Trusted: as C02, plus the history recorder and the Wing-Gong checker.")
+PROPS["C02"]["level_text"] = PROPS["C02"]["level_text"].replace("and, once the micro-step model's proofs are in, at lock granularity for every schedule", "and at lock granularity for every schedule and any number of threads (lock invariant; a registered, not yet woken subscriber has nothing new to see; a Pending decision is registered or woken; every set/close moves the whole waker list to the woken list)")
+PROPS["C03"]["level_text"] = PROPS["C03"]["level_text"].replace("at lock granularity (once the micro-step proofs are in): ", "at lock granularity: ")
